@@ -473,8 +473,14 @@ def _build_key(spec):
 
 
 def gen_world(rng, **kw):
+    p_bare = kw.pop("p_bare", 0.08)
     g = Gen(rng, **kw)
     w = g.world()
+    if rng.random() < p_bare:
+        w["bare_build"] = True     # built at the bottom of a fresh thread's stack: complete symbolic tracebacks
+        for n in w["nodes"]:
+            if n.get("depth") == 0 and rng.random() < 0.8:
+                n["depth"] = -1    # created by the building function itself, no helper in between
     return w
 
 
